@@ -214,6 +214,32 @@ theorem acceptable_iff_offer (as : List AcceptInst) :
   · rintro ⟨a, ha, ⟨h1, h2⟩, h3⟩; exact ⟨a, ha, h2, h1, h3⟩
   · rintro ⟨a, ha, h1, h2, h3⟩; exact ⟨a, ha, ⟨h2, h1⟩, h3⟩
 
+/-- **negotiation_any_position**: the Accept header matters only through "is there an acceptable
+    instance *anywhere* in it": replacing the header by any other with the same verdict — in
+    particular moving the acceptable instance to another position, or putting unacceptable JSON:API
+    instances after it — leaves the written status unchanged. (Round-3 seed C19-7 let the last
+    JSON:API instance decide.) -/
+theorem negotiation_any_position (s : Schema) (r : Req) (as' : List AcceptInst)
+    (h : acceptable as' = acceptable r.accept) :
+    (serveHTTP s { r with accept := as' }).status = (serveHTTP s r).status := by
+  rw [status_eq_refStatus, status_eq_refStatus]
+  simp [refStatus, h]
+
+/-- One acceptable instance anywhere — first, in the middle or last, whatever surrounds it — makes
+    the header acceptable. -/
+theorem acceptable_of_mem (pre post : List AcceptInst) (a : AcceptInst)
+    (h1 : a.media = jsonApiMediaType) (h2 : a.err = false) (h3 : ∀ p ∈ a.params, p = "profile") :
+    isAcceptable (pre ++ a :: post) = true := by
+  rw [isAcceptable_eq, acceptable_iff_offer]
+  exact ⟨a, by simp, h1, h2, h3⟩
+
+/-- Non-vacuity: a clean instance followed by one carrying `ext` (and the reverse order). -/
+example :
+    isAcceptable [⟨jsonApiMediaType, [], false⟩, ⟨jsonApiMediaType, ["ext"], false⟩] = true ∧
+    isAcceptable [⟨jsonApiMediaType, ["ext"], false⟩, ⟨jsonApiMediaType, [], false⟩] = true ∧
+    isAcceptable [⟨jsonApiMediaType, ["profile"], false⟩, ⟨"text/html", [], false⟩, ⟨jsonApiMediaType, ["q"], false⟩] = true := by
+  decide
+
 /-- **status_rule_400**: after negotiation succeeded, a query parameter that is not of the form
     `family([name])*` with member-name-conforming parts, or whose family is all-lowercase and not
     `page`, gives 400 — before the path or the method are looked at (so also for unknown paths). -/
